@@ -89,6 +89,21 @@ class Ctx:
             compare(rq, ib[i], mb[i])
 
 
+def jsonable(o, depth=0):
+    """anything -> something json.dump accepts (replay files must never make a check fall over)"""
+    if isinstance(o, (str, int, float, bool)) or o is None:
+        return o
+    if isinstance(o, (bytes, bytearray)):
+        return o.hex() if len(o) <= 400000 else o[:400000].hex() + '...'
+    if depth > 6:
+        return repr(o)[:200]
+    if isinstance(o, dict):
+        return {(k if isinstance(k, str) else repr(k)): jsonable(v, depth + 1) for k, v in list(o.items())[:2000]}
+    if isinstance(o, (list, tuple, set, frozenset)):
+        return [jsonable(v, depth + 1) for v in list(o)[:2000]]
+    return repr(o)[:500]
+
+
 class BuildError(Exception):
     pass
 
@@ -215,8 +230,8 @@ def main(argv):
         path = os.path.join(vlib.VERIF, 'replays', '%s-%d-%d.json' % (pid, seed, n))
         n += 1
         with open(path, 'w') as f:
-            json.dump({'property': pid, 'kind': 'property-fails-on-input', 'key': v['key'], 'what': v['what'], 'replay': v['replay'],
-                       'seed': seed, 'tier': tier}, f, indent=1, default=repr)
+            json.dump(jsonable({'property': pid, 'kind': 'property-fails-on-input', 'key': v['key'], 'what': v['what'], 'replay': v['replay'],
+                                'seed': seed, 'tier': tier}), f, indent=1, default=repr)
         lines.append('VIOLATION property=%s replay=%s' % (pid, path))
         print('  violation: %s' % v['what'][:500], file=sys.stderr)
         exit_code = 1
@@ -225,10 +240,10 @@ def main(argv):
         # (known findings do not excuse a broken proof/tie)
         path = os.path.join(vlib.VERIF, 'replays', '%s-%d-broken.json' % (pid, seed))
         with open(path, 'w') as f:
-            json.dump({'property': pid, 'kind': 'proof-or-correspondence-broken',
-                       'proof_breaks': ctx.proof_breaks, 'correspondence_disagreements': ctx.disagreements[:10],
-                       'theorems': all_theorems(mod),
-                       'seed': seed, 'tier': tier}, f, indent=1, default=repr)
+            json.dump(jsonable({'property': pid, 'kind': 'proof-or-correspondence-broken',
+                                'proof_breaks': ctx.proof_breaks, 'correspondence_disagreements': ctx.disagreements[:10],
+                                'theorems': all_theorems(mod),
+                                'seed': seed, 'tier': tier}), f, indent=1, default=repr)
         for b in ctx.proof_breaks[:5]:
             print('  proof/tie break: %s' % b['what'][:800], file=sys.stderr)
         for d in ctx.disagreements[:5]:
@@ -273,7 +288,7 @@ def main(argv):
     }
     os.makedirs(os.path.join(vlib.VERIF, 'evidence'), exist_ok=True)
     with open(os.path.join(vlib.VERIF, 'evidence', pid + '.json'), 'w') as f:
-        json.dump(ev, f, indent=1, default=repr)
+        json.dump(jsonable(ev), f, indent=1, default=repr)
     for l in lines:
         print(l)
     print('%s %s: %d theorems (%d discharged), %d cases (%d distinct non-trivial), %d model/impl traces, %d oracle cases, %.1fs -> %s' % (
@@ -283,4 +298,17 @@ def main(argv):
 
 
 if __name__ == '__main__':
-    sys.exit(main(sys.argv[1:]))
+    try:
+        sys.exit(main(sys.argv[1:]))
+    except SystemExit:
+        raise
+    except BaseException:
+        # the machinery itself fell over after the checks ran: never end silently
+        traceback.print_exc()
+        pid = (sys.argv[1] if len(sys.argv) > 1 else 'C00').upper()
+        os.makedirs(os.path.join(vlib.VERIF, 'replays'), exist_ok=True)
+        path = os.path.join(vlib.VERIF, 'replays', '%s-machinery-error.json' % pid)
+        with open(path, 'w') as f:
+            json.dump({'property': pid, 'kind': 'check-machinery-error', 'traceback': traceback.format_exc()[-4000:]}, f, indent=1)
+        print('VIOLATION property=%s replay=%s no-failing-input-found' % (pid, path))
+        sys.exit(1)
